@@ -511,6 +511,9 @@ def c01_layers(tier, seed):
     return [WorldLayer('B:worlds', ws, judge_c01, bounds=b, cli_every=97,
                        rule='every record of every file (main,_1,_2) of every standard world in 4 modes; non-trivial = record is '
                             'reverse-strand, second-pass or joined'),
+            WorldLayer('B:minScore3000', [w for i, w in enumerate(ws) if i % 3 == 1 or i >= len(ws) - 5], judge_c01, modes=('best', 'all'),
+                       extras=(('-ms', '3000'),), bounds=dict(worlds=len([1 for i in range(len(ws)) if i % 3 == 1 or i >= len(ws) - 5]), modes=['best', 'all'], option='-ms 3000'),
+                       rule='every third standard world with a stricter minScore (peaks that yield no segment precede the one that does)'),
             WorldLayer('B:diagnostics', dws, judge_c01, modes=('best',), bounds=dict(worlds=len(dws), modes=['best'], option='-D'),
                        rule='%d molecules with a 5 kb deletion followed by a 2.5 kb insertion, aligned with the diagnostic plots enabled' % len(dws))]
 
